@@ -5,6 +5,11 @@ from vlib import core, kexec, pool, net, refksi as R, refserver as S, gen
 LEVEL = 'exploration'
 KEY = b'anon'
 POLICIES = ['internal', 'userpub', 'calendar', 'general', 'key', 'pubfile']
+# rules of the offline kind that compute values lazily from the signature (memoised chain outputs, document level)
+CUSTOM_RULES = ['AggregationChainInputLevelVerification', 'AggregationChainInputHashVerification', 'AggregationHashChainConsistency', 'AggregationHashChainTimeConsistency',
+                'AggregationHashChainIndexContinuation', 'AggregationHashChainIndexConsistency', 'CalendarHashChainInputHashVerification', 'CalendarHashChainAggregationTime',
+                'CalendarHashChainRegistrationTime', 'CalendarAuthenticationRecordAggregationHash', 'SignaturePublicationRecordPublicationHash', 'DocumentHashVerification',
+                'AggregationChainMetaDataVerification', 'InputHashAlgorithmVerification', 'Rfc3161RecordHashAlgorithmVerification', 'CalendarHashChainExistence']
 
 
 class World:
@@ -19,10 +24,22 @@ class World:
             t = t0 + i * 7
             data = b'doc-%d-%d' % (seed, i)
             rfc = kw.pop('rfc', False)
-            s = gen.gen_signature(rng, time=t, rfc=rfc, calendar=self.cal, pub_time=t + rng.choice([1, 3600, 86400]), doc_data=data, first_corr=rng.choice([0, 2, 9]) if not rfc else None,
-                                  nchains=rng.choice([1, 2, 3]), **kw)
+            local = None
+            if i in (2, 5, 6):
+                # the signed hash is the root of a local aggregation chain: such a signature can be turned into one for the local leaf
+                x = gen.rnd_imprint(rng, 1)
+                links = [R.Link(rng.random() < 0.5, ('imprint', gen.rnd_imprint(rng, 1)), corr=rng.choice([None, None, 1, 3])) for _ in range(rng.randint(1, 4))]
+                lvl0 = rng.choice([0, 0, 2])
+                root, lvl = R.chain_fold(1, x, links, lvl0)
+                local = (x, links, lvl0, root, lvl)
+                s = gen.gen_signature(rng, time=t, rfc=False, calendar=self.cal, pub_time=t + rng.choice([1, 3600, 86400]), doc_imprint=root, first_corr=lvl + rng.choice([0, 0, 4]),
+                                      nchains=rng.choice([1, 2, 3]), **kw)
+            else:
+                s = gen.gen_signature(rng, time=t, rfc=rfc, calendar=self.cal, pub_time=t + rng.choice([1, 3600, 86400]), doc_data=data, first_corr=rng.choice([0, 2, 9]) if not rfc else None,
+                                      nchains=rng.choice([1, 2, 3]), **kw)
             s.raw = s.enc()
             s.data = data
+            s.local = local
             s.docimp = s.rfc.input_hash if s.rfc is not None else s.doc
             self.sigs.append(s)
         # a signature that fails internal verification, and one whose first chain overflows only at high start levels
@@ -35,6 +52,7 @@ class World:
         bad.docimp = self.sigs[0].docimp
         bad.root = self.sigs[0].root
         bad.time = self.sigs[0].time
+        bad.local = None
         self.sigs.append(bad)
         self.roots = {s.time: s.root for s in self.sigs}
 
@@ -72,11 +90,17 @@ def gen_op(rng, w, live):
         ext = rng.choice([0, 1])
         beh = rng.choice(['honest', 'honest', 'error', 'other-root'])
         return ('verify', i, pol, doc, lvl, pub, ext, beh)
+    if k < 0.68:
+        # a user-defined policy: 1..4 rules, each evaluated lazily on the shared signature object
+        rules = rng.sample(CUSTOM_RULES, rng.randint(1, 4))
+        return ('verify', i, 'rules:' + ','.join(rules), rng.choice(['none', 'match', 'match', 'flip']), rng.choice([0, 0, 2, 3, 9]), 'none', 0, 'honest')
     if k < 0.7:
         return ('serialize', i)
     if k < 0.8:
         return ('extend', i, rng.randrange(nslots), rng.choice(['head', 'later', 'pub']), rng.choice(['honest', 'honest', 'error', 'other-root']))
-    if k < 0.86:
+    if k < 0.84:
+        return ('prepend', i, rng.randrange(nslots), rng.choice(['own', 'own', 'foreign']))
+    if k < 0.88:
         return ('free', i)
     if k < 0.9:
         return ('loglevel', rng.choice([0, 5]))
@@ -170,7 +194,7 @@ class Hist:
             fresh = (q2.rc, q2.get('res'), q2.get('err'))
             self.r.count('verifications')
             if got != fresh:
-                self.viol('verdict-differs-from-fresh-context:%s' % pol, 'verification %s gives %s on the shared context and %s on a fresh context' % (cmd[:90], got, fresh))
+                self.viol('verdict-differs-from-fresh-context:%s' % ('user-defined-policy' if pol.startswith('rules:') else pol), 'verification %s gives %s on the shared context and %s on a fresh context' % (cmd[:90], got, fresh))
         elif kind == 'serialize':
             pass
         elif kind == 'extend':
@@ -193,6 +217,32 @@ class Hist:
             else:
                 self.live.pop(b, None)
                 self.r.count('extensions_failed')
+        elif kind == 'prepend':
+            # derive a signature for a local leaf by prepending a local aggregation chain (KSI_SignatureBuilder_createSignatureWithAggregationChain)
+            _, a, b, which = op
+            raw, si = self.live[a]
+            if a == b:
+                return
+            s = w.sigs[si] if si is not None else None
+            loc = s.local if (s is not None and which == 'own') else None
+            if loc is None:
+                cands = [x.local for x in w.sigs if x.local is not None and x is not s]
+                loc = cands[(a + b) % len(cands)]
+                which = 'foreign'
+            x, links, lvl0, root, lvl = loc
+            spec = ','.join('%s:%s:%d' % ('L' if ln.left else 'R', ln.sib[1].hex(), ln.corr or 0) for ln in links)
+            q = c('sigprepend 0 %d %d 1 %s %d %s' % (a, b, x.hex(), lvl0, spec))
+            self.r.count('prepend_%s_%s' % (which, 'ok' if q.rc == 0 else 'refused'))
+            if q.rc == 0 and q.get('sig'):
+                self.live[b] = (bytes.fromhex(q['sig']), None)
+                if which == 'own':
+                    v = c('verify 0 %d internal doc=%s lvl=%d' % (b, x.hex(), lvl0))
+                    if v.get('res') != '0':
+                        self.viol('prepend:derived-signature-does-not-verify', 'signature derived for the local leaf does not verify internally: rc=%#x res=%s err=%s' % (v.rc, v.get('res'), v.get('err')))
+            else:
+                self.live.pop(b, None) if q.rc != 0 and False else None
+                if which == 'own' and s is not None and si != len(w.sigs) - 1:
+                    self.viol('prepend:matching-chain-refused', 'local chain whose root is the signed hash refused rc=%#x' % q.rc)
         elif kind == 'free':
             c('sigfree %d' % op[1])
             self.live.pop(op[1], None)
@@ -277,4 +327,4 @@ def run(ctx):
     pool.run(ctx, worker, jobs, workers=16)
     c = ctx.counters
     if not ctx.violations and not ctx.known_printed:
-        ctx.require(c.get('histories', 0) >= 500 and c.get('verifications', 0) >= 2000 and c.get('extensions_ok', 0) >= 50, 'histories, verifications and extensions observed')
+        ctx.require(c.get('histories', 0) >= 500 and c.get('verifications', 0) >= 2000 and c.get('extensions_ok', 0) >= 50 and c.get('prepend_own_ok', 0) >= 20, 'histories, verifications, extensions and derivations observed')
